@@ -71,8 +71,14 @@ func keysOf(m map[string]bool) string {
 
 func checkC24(c srvCase) (o vstat.Outcome) {
 	t := newTrace()
+	relayStuck.Store(false)
 	defer func() {
 		o.Classes = append(o.Classes, classList(t.classes)...)
+		if relayStuck.Load() {
+			o.Discard = false
+			o.V = vstat.Viol("relay-unresponsive", "after %s: the relay's state is locked and never released again - no call makes progress, listeners learn nothing", t.history())
+			return
+		}
 		if t.regTimeout {
 			// a call did not register with the relay within the bound: call order is undefined, nothing is asserted
 			o.V, o.Discard = nil, true
@@ -190,8 +196,14 @@ func genC25(t *rapid.T) c25Case {
 
 func checkC25(c c25Case) (o vstat.Outcome) {
 	t := newTrace()
+	relayStuck.Store(false)
 	defer func() {
 		o.Classes = append(o.Classes, classList(t.classes)...)
+		if relayStuck.Load() {
+			o.Discard = false
+			o.V = vstat.Viol("relay-unresponsive", "after %s: the relay's state is locked and never released again - calls neither end nor are replaced", t.history())
+			return
+		}
 		if t.regTimeout {
 			// a call did not register with the relay within the bound: call order is undefined, nothing is asserted
 			o.V, o.Discard = nil, true
@@ -356,7 +368,7 @@ func checkC25(c c25Case) (o vstat.Outcome) {
 	}
 	var np, ns int
 	ok := waitFor(3*time.Second, func() bool {
-		np, ns, _ = t.srv.VerifState()
+		np, ns, _ = hookState(t.srv)
 		return np == 0 && ns == 0
 	})
 	if !ok {
